@@ -252,6 +252,14 @@ DESC_KINDS = ['int', 'negint', 'float', 'nan', 'inf', 'bool', 'str', 'str-empty'
               'arr-int', 'arr-float', 'arr-1', 'arr-empty', 'mat', 'arr-str', 'arr-bool', 'list-int', 'list-float',
               'list-str', 'list-1', 'list-1str', 'list-nested', 'tuple-str', 'none', 'dict',
               'tuple-num', 'tuple-float', 'arr-ustr', 'list-ustr', 'list-ragged', 'list-mixed']
+# sweep: typed values (integers beyond 2**53, small integer dtypes, float32), full-precision / extremely scaled floats,
+# 0-d / 3-d arrays, strings with blanks, a string beyond the 64 KiB compact-attribute limit of HDF5, strings of very
+# different widths, bool / empty lists
+SWEEP_DESC = ['bigint', 'arr-bigint', 'float-precise', 'float-tiny', 'arr-precise', 'list-precise', 'arr-u8', 'arr-i2', 'arr-f4',
+              'arr-0d', 'arr-3d', 'str-spaces', 'str-long', 'list-width', 'list-bool', 'list-empty']
+SOLO_DESC = ('str-long',)        # only on its own (70 kB per object would slow the combined cases down)
+DESC_KINDS = DESC_KINDS + SWEEP_DESC
+PENDING_DESC = ['range']         # pending triage: range-descriptor
 
 
 def _dval(kind, n=3):
@@ -325,12 +333,52 @@ def _dval(kind, n=3):
         return [np.arange(2), np.arange(3)]
     if kind == 'list-mixed':
         return [1, 'a']
+    if kind == 'bigint':
+        return 2 ** 53 + 1
+    if kind == 'arr-bigint':
+        return np.array([2 ** 62 + 1, -(2 ** 62) - 1, 2 ** 53 + 1])
+    if kind == 'float-precise':
+        return 1.0 / 3.0
+    if kind == 'float-tiny':
+        return np.pi * 1e-26
+    if kind == 'arr-precise':
+        return np.array([1.0 / 3.0, np.pi * 1e-26, -np.e * 1e12, 5e-324, 1.7976931348623157e308, 0.1])
+    if kind == 'list-precise':
+        return [0.1, 1.0 / 3.0, 1e-300]
+    if kind == 'arr-u8':
+        return np.array([200, 255, 0, 128], dtype=np.uint8)
+    if kind == 'arr-i2':
+        return np.array([-32768, 32767, -1], dtype=np.int16)
+    if kind == 'arr-f4':
+        return np.array([0.1, 0.2, 16777217.0], dtype=np.float32)
+    if kind == 'arr-0d':
+        return np.array(3.5)
+    if kind == 'arr-3d':
+        return np.arange(8.0).reshape(2, 2, 2) / 3.0
+    if kind == 'str-spaces':
+        return '  padded \t text  '
+    if kind == 'str-long':
+        return ''.join(chr(97 + (i * 7) % 26) for i in range(70000))
+    if kind == 'list-width':
+        return ['x' * 300, 'y', '', 'zz ']
+    if kind == 'list-bool':
+        return [True, False, True]
+    if kind == 'list-empty':
+        return []
+    if kind == 'range':
+        return range(3)
     raise ValueError(kind)
 
 
 AXIS_KINDS = ['list-int', 'list-str', 'arr-int', 'arr-float', 'arr-str', 'list-float', 'arr-2d', 'list-tuple', 'list-dup',
               'tuple-str', 'list-ustr', 'arr-ustr', 'list-ragged', 'tuple-int']
 UNSAFE_AXIS = ('list-ustr', 'arr-ustr', 'list-ragged', 'tuple-int')
+# sweep: repeated + interleaved values whose first-appearance order is not the sorted order, small integer dtypes, float32,
+# integers beyond 2**53, full-precision / extremely scaled floats, strings of very different widths, bools, float tuples
+SWEEP_AXIS = ['list-interleaved', 'arr-u8', 'arr-f4', 'list-bigint', 'arr-precise', 'list-width', 'list-bool', 'tuple-float',
+              'arr-str-interleaved']
+AXIS_KINDS = AXIS_KINDS + SWEEP_AXIS
+PENDING_AXIS = ['range']         # pending triage: range-descriptor
 
 
 def _aval(kind, n, off=0):
@@ -364,16 +412,40 @@ def _aval(kind, n, off=0):
         return np.array(['日%d' % i for i in range(n)])
     if kind == 'list-ragged':
         return [np.arange(1 + (i % 2)) for i in range(n)]
+    if kind == 'list-ragged3':          # ragged, and the lengths do not follow the position
+        return [np.arange(1 + (i * 2) % 3) + 10 * i for i in range(n)]
+    if kind == 'list-interleaved':
+        return [(2, 0, 2, 1, 0, 1, 1)[i % 7] for i in range(n)]
+    if kind == 'arr-str-interleaved':
+        return np.array([('z', 'b', 'z', 'a', 'b', 'a', 'a')[i % 7] for i in range(n)])
+    if kind == 'arr-u8':
+        return ((np.arange(n) * 50 + 130) % 256).astype(np.uint8)[::-1].copy()
+    if kind == 'arr-f4':
+        return (np.arange(n) * 0.1 + 0.1).astype(np.float32)
+    if kind == 'list-bigint':
+        return [(2 ** 62 + 1 + i) * (-1 if i % 2 else 1) for i in range(n)]
+    if kind == 'arr-precise':
+        return np.array([(1e-26, 1.0, 1e12)[i % 3] / (3.0 + i) for i in range(n)])
+    if kind == 'list-width':
+        return ['s' * (1 + (i * 37) % 120) + (' ' if i % 2 else '') for i in range(n)]
+    if kind == 'list-bool':
+        return [i % 3 == 0 for i in range(n)]
+    if kind == 'tuple-float':
+        return tuple(0.1 * (i + 1) for i in range(n))
+    if kind == 'range':
+        return range(2, 2 + n)
     raise ValueError(kind)
 
 
 def _axis_class(kind, n):
     if kind in ('list-ustr', 'arr-ustr'):
         return 'unicode-string-array'
-    if kind == 'list-ragged' and n >= 2:
+    if kind in ('list-ragged', 'list-ragged3') and n >= 2:
         return 'ragged-list-descriptor'
-    if kind == 'tuple-int':
+    if kind in ('tuple-int', 'tuple-float'):
         return 'tuple-descriptor'
+    if kind == 'range':
+        return 'range-descriptor'
     return None
 
 
@@ -381,9 +453,13 @@ def _case_class(case, default):
     """input_class of a case: the finding class of the first unusual descriptor kind in it, else `default`"""
     if case.get('keys') == 'slash':
         return 'slash-in-key'
+    if case.get('keys') == 'digit':
+        return 'digit-string-key'
     for k in case.get('desc', []):
         if k in FINDING_CLASS:
             return FINDING_CLASS[k]
+        if k == 'range':
+            return 'range-descriptor'
     for key, n in case.get('_axis_sizes', {}).items():
         for k in case.get(key, []):
             c = _axis_class(k, n)
@@ -392,10 +468,12 @@ def _case_class(case, default):
     return default
 
 
-KEY_PREFIX = {'plain': '', 'unicode': 'ü 日.', 'slash': 'sub/'}
+KEY_PREFIX = {'plain': '', 'unicode': 'ü 日.', 'slash': 'sub/', 'spaces': ' a b . '}
 
 
-def _key(case, name):
+def _key(case, name, i=0):
+    if case.get('keys') == 'digit':      # descriptor names '0', '1', ... (the i-th descriptor of its dict)
+        return str(i)
     return KEY_PREFIX[case.get('keys', 'plain')] + name
 
 
@@ -416,7 +494,38 @@ def _values(shape, vals, base=0.0):
         a = (a * 4).astype(np.int64)
     if vals == 'negzero' and n:
         a.flat[0] = -0.0
+    # --- sweep: typed data (the stored dtype must come back, the values must not be truncated / wrapped / promoted) ...
+    if vals == 'u1':
+        a = ((np.arange(n) * 37 + 200) % 256).astype(np.uint8).reshape(shape)       # includes values > 127
+    if vals == 'i2':
+        a = ((np.arange(n) * 1237 - 30000) % 65536 - 32768).astype(np.int16).reshape(shape)
+    if vals == 'i4':
+        a = (np.arange(n, dtype=np.int64) * 100003 - 2 ** 31 + 1).astype(np.int32).reshape(shape)
+    if vals == 'u8big':     # beyond 2**63: neither int64 nor float64 can hold these
+        a = (np.uint64(2 ** 64 - 1) - np.arange(n, dtype=np.uint64) * np.uint64(3)).reshape(shape)
+    if vals == 'i8big':     # beyond 2**53: a detour through float64 changes them
+        a = (np.int64(2 ** 62 + 1) + np.arange(n, dtype=np.int64) * np.int64(3)).reshape(shape) * np.where(np.arange(n) % 2, -1, 1).reshape(shape)
+    if vals == 'f2':
+        a = (np.arange(n) * 0.1 + 0.0999).astype(np.float16).reshape(shape)
+    if vals == 'bool':
+        a = (np.arange(n) % 3 == 0).reshape(shape)
+    # --- ... and extreme but legitimate units / full-precision values (not representable in float32, far below any
+    # absolute tolerance, far above it)
+    if vals == 'precise':
+        a = (1.0 / (3.0 + np.arange(n)) + base).reshape(shape)
+    if vals == 'tiny':
+        a = ((np.pi + np.arange(n) / 7.0) * 1e-26).reshape(shape)
+    if vals == 'huge':
+        a = ((np.e + np.arange(n) / 7.0) * 1e12 * np.where(np.arange(n) % 2, -1.0, 1.0)).reshape(shape)
+    if vals == 'extreme' and n:
+        ext = [5e-324, 2.2250738585072014e-308, 1.7976931348623157e308, -1.7976931348623157e308, 1e-300, 2.0 ** -1074 * 3,
+               1.0 + 2.0 ** -52, 1e300]
+        a = np.array([ext[i % len(ext)] * (1 if i < len(ext) else 0.5) for i in range(n)]).reshape(shape)
     return a
+
+
+TYPED_VALS = ['u1', 'i2', 'i4', 'u8big', 'i8big', 'f2', 'bool']
+UNIT_VALS = ['precise', 'tiny', 'huge', 'extreme']
 
 
 # =====================================================================================================
@@ -427,23 +536,23 @@ def _mk_rdms(case, base=0.0):
     n_rdm, n_cond = case['n_rdm'], case['n_cond']
     diss = _values((n_rdm, n_cond * (n_cond - 1) // 2), case.get('vals', 'plain'), base)
     measure = {'str': 'euclidean', 'none': None, 'ustr': USTR}[case.get('measure', 'str')]
-    desc = {_key(case, 'd_' + k): _dval(k, n_cond) for k in case.get('desc', [])}
-    rd = {_key(case, 'r_' + k): _aval(k, n_rdm, 1) for k in case.get('rdm_desc', [])}
-    pd = {_key(case, 'p_' + k): _aval(k, n_cond, 2) for k in case.get('pat_desc', [])}
+    desc = {_key(case, 'd_' + k, i): _dval(k, n_cond) for i, k in enumerate(case.get('desc', []))}
+    rd = {_key(case, 'r_' + k, i): _aval(k, n_rdm, 1) for i, k in enumerate(case.get('rdm_desc', []))}
+    pd = {_key(case, 'p_' + k, i): _aval(k, n_cond, 2) for i, k in enumerate(case.get('pat_desc', []))}
     return RDMs(diss, dissimilarity_measure=measure, descriptors=desc, rdm_descriptors=rd, pattern_descriptors=pd)
 
 
 def _mk_dataset(case, base=0.0):
     from rsatoolbox.data import Dataset, TemporalDataset
     n_obs, n_ch = case['n_obs'], case['n_ch']
-    desc = {_key(case, 'd_' + k): _dval(k, n_ch) for k in case.get('desc', [])}
-    od = {_key(case, 'o_' + k): _aval(k, n_obs, 1) for k in case.get('obs_desc', [])}
-    cd = {_key(case, 'c_' + k): _aval(k, n_ch, 2) for k in case.get('ch_desc', [])}
+    desc = {_key(case, 'd_' + k, i): _dval(k, n_ch) for i, k in enumerate(case.get('desc', []))}
+    od = {_key(case, 'o_' + k, i): _aval(k, n_obs, 1) for i, k in enumerate(case.get('obs_desc', []))}
+    cd = {_key(case, 'c_' + k, i): _aval(k, n_ch, 2) for i, k in enumerate(case.get('ch_desc', []))}
     if case['kind'] == 'temporal':
         n_t = case['n_t']
         meas = _values((n_obs, n_ch, n_t), case.get('vals', 'plain'), base)
         td = {'time': _aval('arr-float', n_t)}
-        td.update({_key(case, 't_' + k): _aval(k, n_t, 3) for k in case.get('t_desc', [])})
+        td.update({_key(case, 't_' + k, i): _aval(k, n_t, 3) for i, k in enumerate(case.get('t_desc', []))})
         return TemporalDataset(meas, descriptors=desc, obs_descriptors=od, channel_descriptors=cd, time_descriptors=td)
     meas = _values((n_obs, n_ch), case.get('vals', 'plain'), base)
     return Dataset(meas, descriptors=desc, obs_descriptors=od, channel_descriptors=cd)
@@ -509,6 +618,9 @@ def _mk_result(case):
 # =====================================================================================================
 EXT = {'hdf5': '.h5', 'pkl': '.pkl'}
 TARGETS = ['path', 'path-neutral', 'path-hdf5ext', 'path-overwrite-fresh', 'file', 'file-reopen', 'bytesio']
+# sweep: other legitimate spellings of "a path": non-ASCII + blanks in the file name, a path relative to the working directory,
+# a nested directory with blanks and dots, a file name that contains the OTHER format's suffix in the middle
+TARGETS_X = ['path-unicode', 'path-relative', 'path-subdir', 'path-misleading']
 
 
 def _transport(td, save, load, fmt, target, stem='obj'):
@@ -523,8 +635,27 @@ def _transport(td, save, load, fmt, target, stem='obj'):
         save(p, file_type=fmt)
         return load(p, file_type=fmt)
     ext = '.hdf5' if (target == 'path-hdf5ext' and fmt == 'hdf5') else EXT[fmt]
+    if target == 'path-relative':
+        cwd = os.getcwd()
+        os.chdir(td)
+        try:
+            p = os.path.join('.', stem + ext) if fmt == 'hdf5' else stem + ext
+            save(p, file_type=fmt)
+            if not os.path.exists(os.path.join(td, stem + ext)):
+                raise AssertionError('save(relative path) did not create the file in the working directory')
+            return load(p)
+        finally:
+            os.chdir(cwd)
+    if target == 'path-unicode':
+        stem = stem + ' ' + USTR
+    if target == 'path-subdir':
+        sub = os.path.join(td, 'my data.v2', 'sub-01 ses.pkl.h5.d')
+        os.makedirs(sub)
+        td = sub
+    if target == 'path-misleading':
+        stem = stem + {'hdf5': '.pkl.backup', 'pkl': '.h5.hdf5.backup'}[fmt]
     p = os.path.join(td, stem + ext)
-    if target in ('path', 'path-hdf5ext'):
+    if target in ('path', 'path-hdf5ext', 'path-unicode', 'path-subdir', 'path-misleading'):
         save(p, file_type=fmt)
         return load(p)
     if target == 'path-overwrite-fresh':
